@@ -61,6 +61,12 @@ fn cmp(row1: &RowRef, row2: &RowRef, orders: &[bool]) -> Ordering {
     Ordering::Equal
 }
 
+/// Verification hook: the comparator used by `OrderExecutor`.
+#[cfg(risinglight_verif)]
+pub fn verif_order_cmp(row1: &RowRef, row2: &RowRef, orders: &[bool]) -> Ordering {
+    cmp(row1, row2, orders)
+}
+
 /// Generate an array of rows for the chunks.
 fn gen_row_array(chunks: &[DataChunk]) -> Vec<RowRef<'_>> {
     chunks.iter().flat_map(|chunk| chunk.rows()).collect()
